@@ -2,7 +2,7 @@ CONSTANTS
   Twins = {"none", "sibling"}
   Modes = {"single", "multi"}
   Kinds = {"struct", "newtype_struct", "unit_struct", "unit_enum", "tagged_enum", "alias", "const"}
-  Annotations = {"none", "plain", "path", "args"}
+  Annotations = {"none", "plain", "path", "args", "abs_path", "spaced"}
   Nestings = {"top", "mod1", "mod2", "fn_body", "impl_block", "cfg_mod", "const_block", "const_init_value", "static_block", "nested_blocks_in_fn", "trait_default_fn", "closure_in_fn", "mod_in_fn"}
   SkipSets = {"none", "first", "middle", "last", "first_last", "all_but_middle", "all"}
   SkipSpellings = {"serde_skip", "typeshare_skip", "serde_after_word", "serde_after_kv", "typeshare_after_kv", "serde_before_kv", "both", "separate_attr"}
